@@ -9,6 +9,7 @@ mod schx;
 mod seqx;
 mod simk;
 mod talloc;
+mod thworld;
 mod waker;
 
 #[global_allocator]
@@ -25,6 +26,7 @@ const VERIF: &str = "/verif";
 fn init_process() {
     assert!(mapwatch::selftest(), "MACHINERY: mmap/munmap/close interposer is not live");
     simk::install();
+    schx::install();
     seqx::install_panic_hook();
     // Plenty of descriptors for leaked executions.
     unsafe {
@@ -159,6 +161,11 @@ fn replay_inner(path: &str) -> i32 {
     }
     for (i, a) in r.history.iter().enumerate() {
         println!("  {i:2}: {a}");
+    }
+    if std::env::var_os("A10MC_DUMP").is_some() {
+        for l in simk::take_last_log() {
+            println!("    simk: {l}");
+        }
     }
     for viol in &r.violations {
         println!("REPRODUCED {}", viol.sig);
